@@ -2939,6 +2939,22 @@ def _exclusive(a, b, fn):
 
 
 # ---------------------------------------------------------------------------------------------- R-ATTACH (C08, C05, C16)
+def _smc_arg_texts(c, tree):
+    """texts of the two arguments of a set_modeling_obj_container call; `(*PAIR)` with PAIR a module-level constant pair
+    (`EMPTY_SLOT = Slot(None, None)`) reads as its two members, any other unpacked pair as two unknown arguments"""
+    if len(c.args) == 1 and isinstance(c.args[0], ast.Starred) and not c.keywords:
+        v = c.args[0].value
+        if isinstance(v, ast.Name) and tree is not None:
+            d_ = next((st_.value for st_ in tree.body if isinstance(st_, ast.Assign) and len(st_.targets) == 1
+                       and isinstance(st_.targets[0], ast.Name) and st_.targets[0].id == v.id), None)
+            if isinstance(d_, ast.Call) and len(d_.args) == 2 and not d_.keywords:
+                return [norm(a) for a in d_.args]
+            if isinstance(d_, (ast.Tuple, ast.List)) and len(d_.elts) == 2:
+                return [norm(a) for a in d_.elts]
+        return ["<unpacked>", "<unpacked>"]
+    return [norm(a) for a in c.args] + [norm(k.value) for k in c.keywords]
+
+
 @rule("R-ATTACH")
 def r_attach(E):
     pm = E.pm
@@ -2954,8 +2970,24 @@ def r_attach(E):
         from ..astutil import calls_through_helpers, source_order
         is_smc = lambda c: isinstance(c.func, ast.Attribute) and c.func.attr == "set_modeling_obj_container"
         allc = calls_through_helpers(fn, pm.helper_finder(q.split(".")[0]), want=is_smc, depth=2)
-        det = [c for c in allc if is_smc(c) and [norm(a) for a in c.args] == ["None", "None"]]
-        att = [c for c in allc if is_smc(c) and [norm(a) for a in c.args] != ["None", "None"] and len(c.args) == 2]
+        _rel_t, _tree_t = pm.module_tree(suffix)
+
+        def _smc_args(c):
+            # set_modeling_obj_container(*PAIR): a module-level constant pair (`EMPTY_SLOT = Slot(None, None)`) reads as its
+            # two members, any other unpacked pair as two unknown arguments
+            if len(c.args) == 1 and isinstance(c.args[0], ast.Starred):
+                v = c.args[0].value
+                if isinstance(v, ast.Name):
+                    d_ = next((st_.value for st_ in _tree_t.body if isinstance(st_, ast.Assign) and len(st_.targets) == 1
+                               and isinstance(st_.targets[0], ast.Name) and st_.targets[0].id == v.id), None)
+                    if isinstance(d_, ast.Call) and len(d_.args) == 2 and not d_.keywords:
+                        return [norm(a) for a in d_.args]
+                    if isinstance(d_, (ast.Tuple, ast.List)) and len(d_.elts) == 2:
+                        return [norm(a) for a in d_.elts]
+                return ["<unpacked>", "<unpacked>"]
+            return [norm(a) for a in c.args]
+        det = [c for c in allc if is_smc(c) and _smc_args(c) == ["None", "None"]]
+        att = [c for c in allc if is_smc(c) and _smc_args(c) != ["None", "None"] and len(_smc_args(c)) == 2]
         if not det or not att:
             res.findings.append(Finding("R-ATTACH", f"{q} detach/attach", f"{q} no longer detaches the replaced value and "
                                         f"attaches the new one", rel, fn.lineno, q))
@@ -3005,10 +3037,11 @@ def r_attach(E):
             if any(c.func.attr == "replace_in_mod_obj_container_without_recomputation" and norm(c.func.value) == "super()"
                    for c in calls):
                 continue
-            dets = [c for c in calls if c.func.attr == "set_modeling_obj_container" and [norm(a) for a in c.args] == ["None", "None"]
+            _tree_p = pm.module_tree(pm.path_of(cn))[1] if cn in pm.classes else None
+            dets = [c for c in calls if c.func.attr == "set_modeling_obj_container" and _smc_arg_texts(c, _tree_p) == ["None", "None"]
                     and norm(c.func.value) == f.args.args[0].arg]
-            atts = [c for c in calls if c.func.attr == "set_modeling_obj_container" and len(c.args) + len(c.keywords) == 2
-                    and [norm(a) for a in c.args] != ["None", "None"]
+            atts = [c for c in calls if c.func.attr == "set_modeling_obj_container" and len(_smc_arg_texts(c, _tree_p)) == 2
+                    and _smc_arg_texts(c, _tree_p) != ["None", "None"]
                     and newp in names_behind(c.func.value, f)]
             if not dets or not any(rank[id(a)] > rank[id(dets[-1])] for a in atts):
                 cond = " and ".join(("" if pol else "not ") + "(" + norm(t)[:50] + ")" for t, pol in path.conds)
